@@ -37,6 +37,10 @@ BODIES = [
     ('ss', lambda t: [t, '/a/b']),
     ('sss', lambda t: [t, '/a/', 'x']),
     ('si', lambda t: [t, 7]),
+    # many string arguments: index 10 is 'late' / 'other', 11 a path, 12 'later' / 'x'
+    ('s' * 13, lambda t: [t, 'x'] + ['f%d' % i for i in range(2, 10)] + ['late', '/a/b', 'later']),
+    ('s' * 13, lambda t: [t, 'x'] + ['f%d' % i for i in range(2, 10)] + ['other', '/b', 'x']),
+    ('s' * 11, lambda t: [t, 'y'] + ['f%d' % i for i in range(2, 10)] + ['late']),
     ('', lambda t: []),
     ('', lambda t: []),
 ]
@@ -48,6 +52,8 @@ RULES = [
     {'interface': 'a.bc', 'path': '/a/bc'}, {'args': {0: 'nope'}}, {'type': 'error'},
     {'args': {1: 'x'}}, {'type': 'signal', 'args': {1: 'x', 2: 'x'}}, {'arg_paths': {1: '/a/'}}, {'arg_paths': {1: '/a/b'}},
     {'member': 'M', 'args': {1: 'xy'}}, {'arg_paths': {1: '/a/b/c'}},
+    # argument indices with two digits (the specification allows 0-63)
+    {'args': {10: 'late'}}, {'args': {1: 'x', 12: 'later'}}, {'arg_paths': {11: '/a/'}}, {'args': {63: 'last'}},
 ]
 
 
